@@ -525,7 +525,8 @@ class Gen:
         lo = self.rng.randrange(n)
         hi = self.rng.randint(lo + 1, n)
         c = [self.rng.choice([2.0, -0.5, 0.0, 1.25]) for _ in range(hi - lo)]
-        self.steps.append({'op': 'setarr', 'buf': buf, 'lo': lo, 'hi': hi, 'c': c, 'zerod': hi - lo == 1 and self.rng.random() < 0.5})
+        self.steps.append({'op': 'setarr', 'buf': buf, 'lo': lo, 'hi': hi, 'c': c, 'zerod': hi - lo == 1 and self.rng.random() < 0.5,
+                           'form': self.rng.choice(['array', 'array', 'list', 'tuple'])})
         l, h = self.vars[buf]['iv']
         self.widen(buf, (min([l] + c), max([h] + c)))
         return True
@@ -732,6 +733,9 @@ def run_program(prog, inputs):
         elif op == 'getitem':
             idx = tuple(st['idx'])
             vals.append(vals[st['a']][idx[0]] if st.get('bare') and len(idx) == 1 else vals[st['a']][idx])
+        elif op == 'deepcopy':
+            import copy as _copy
+            vals.append(_copy.deepcopy(vals[st['a']]) if st.get('how', 'deepcopy') == 'deepcopy' else vals[st['a']].copy())
         elif op == 'flatget':
             vals.append(vals[st['a']].flat[st['i']])
         elif op == 'sum':
@@ -803,6 +807,10 @@ def run_program(prog, inputs):
         elif op == 'setarr':
             if st.get('zerod'):
                 vals[st['buf']][st['lo']] = np.array(st['c'][0])
+            elif st.get('form') == 'list':
+                vals[st['buf']][st['lo']:st['hi']] = [float(v) for v in st['c']]        # a Python list as the assigned value
+            elif st.get('form') == 'tuple':
+                vals[st['buf']][st['lo']:st['hi']] = tuple(float(v) for v in st['c'])
             else:
                 vals[st['buf']][st['lo']:st['hi']] = np.array(st['c'])
         elif op == 'realalias':
